@@ -39,6 +39,7 @@ EXPLANATION = (
     "after both phases returned and READY was set, under the lock; on_disconnect only in the stop hook handed to "
     "start_connection, under the lock after DISCONNECTED; on_connect_error on every failed attempt with the caught error. "
     "Decides these structural clauses; retry instants in virtual time and alternation over all histories are not decided."
+    ' Also: listen / unlisten take the zeroconf instance from the manager at the call; the failure handler has no raise / early return of its own.'
 )
 ASSUMPTIONS = [
     "asyncio.Lock is fair and mutual-exclusive; loop.call_at fires at its deadline and a cancelled TimerHandle never runs",
